@@ -1496,6 +1496,33 @@ def expand_conditions(body, conds, limit=16):
                 else:
                     alts.append(e)
             flat(c.expr)
+        if c.kind == 'discr' and c.variants and c.expr is not None and c.expr.kind == 'phi':
+            # `match r { Ok(..) => .. }` on a value built as Ok{..} on one path and Err{..} on another (the desugared
+            # form of ok_or / ok_or_else / map followed by and_then / match): the arm is reached only through the
+            # alternatives that carry that variant, each with the path conditions of the block that built it
+            dal = []
+
+            def dflat(e):
+                if e.kind == 'phi':
+                    for a in e.args:
+                        dflat(a)
+                else:
+                    dal.append(e)
+            dflat(c.expr)
+            new = []
+            decided = True
+            for a in dal:
+                if a.kind == 'agg' and not a.proj and isinstance(a.extra, dict) and a.extra.get('v'):
+                    if a.extra['v'] not in c.variants:
+                        continue
+                    extra = [x for x in (path_conditions(body, a.site[0]) if a.site else []) if x is not c]
+                    for v in variants:
+                        new.append(v + extra + [c])
+                else:
+                    decided = False
+            if decided and new:
+                variants = new[:limit]
+                continue
         if not alts:
             variants = [v + [c] for v in variants]
             continue
